@@ -1,9 +1,10 @@
 //! C18 driver: `dasp_interpolate::sinc::Sinc` over `ring_buffer::Fixed<Vec<F>>`, directly
 //! (`sinc`: push / interp at x = j/16 / clear, with a fresh twin created at every clear),
 //! through the real `Converter` at ratio 1 (`sinc_conv`), and four interleaved instances fed
-//! a, b, a+b and 2^k a (`sinc_lin`).  Frame types `[f64|f32|i16|i32; 1|2]`; the i32 frames carry
-//! values with more than 24 significant bits (the format's Float companion is f32; the interpolator
-//! must not round through it).  Drivers and loggers only.
+//! a, b, a+b and 2^k a (`sinc_lin`: `step` = feed + interpolate, `probe` = interpolate only), and four real
+//! `Converter`s at one ratio num/den over sources a, b, a+b, 2^k a (`sinc_clin`).  Frame types
+//! `[f64|f32|i8|i16|i32|u8|u16|u32; 1|2]`; the 32-bit frames carry values with more than 24 significant bits
+//! (the format's Float companion is f32; the interpolator must not round through it).  Drivers and loggers only.
 use crate::enc::*;
 use dasp_frame::Frame;
 use dasp_interpolate::{sinc::Sinc, Interpolator};
@@ -178,10 +179,30 @@ where
     };
     out.line(&json!({"ev":"reset","comp":"sinc_lin","cfg":echo,"r":r_unit(),"o":{"ok":true}}));
     for op in &ex[1..] {
+        if op["ev"] == "probe" {
+            // interpolate all four instances at x = j/16 without feeding them (interpolate takes &self)
+            let j = op["a"]["x"].as_i64().unwrap();
+            let x = j as f64 / 16.0;
+            let (r, h, _) = measured(|| {
+                catch(|| {
+                    let mut o = [F::EQUILIBRIUM; 4];
+                    for i in 0..4 {
+                        o[i] = s[i].interpolate(x);
+                    }
+                    o
+                })
+            });
+            let r = match r {
+                Some(o) => r_val(json!({"oa": enc_frame(o[0]), "ob": enc_frame(o[1]), "oab": enc_frame(o[2]), "oka": enc_frame(o[3])})),
+                None => r_panic(),
+            };
+            out.ev("probe", json!({"x": j}), r, json!({"ok": true}), h);
+            continue;
+        }
         assert_eq!(op["ev"], "step");
         let a = &op["a"];
-        let va: F = dec_frame(&a["va"]);
-        let vb: F = dec_frame(&a["vb"]);
+        let va: F = dec_frame_lin(&a["va"]);
+        let vb: F = dec_frame_lin(&a["vb"]);
         // inputs of the third and fourth instance (inputs, not expectations; the spec re-checks them)
         let vab: F = F::from_fn(|c| va.channel(c).unwrap().plus(*vb.channel(c).unwrap()));
         let vka: F = F::from_fn(|c| va.channel(c).unwrap().scale2(k));
@@ -212,6 +233,73 @@ where
     }
 }
 
+/// four real `Converter`s at one and the same ratio num/den over the sources a, b, a+b, 2^k a (`sinc_clin`):
+/// each `next` reads one frame from every converter and logs the four frames and the four pull counts
+fn clin<F: Frame>(out: &mut Out, ex: &[Value])
+where
+    F::Sample: Enc + Duplex<f64>,
+{
+    let cfg = &ex[0]["cfg"];
+    let depth = cfg["depth"].as_u64().unwrap() as usize;
+    let k = cfg["k"].as_i64().unwrap() as i32;
+    let num = cfg["num"].as_u64().unwrap();
+    let den = cfg["den"].as_u64().unwrap();
+    let ctor = cfg["ctor"].as_str().unwrap_or("scale").to_string();
+    let a: Vec<F> = cfg["a"].as_array().unwrap().iter().map(|v| dec_frame_lin(v)).collect();
+    let b: Vec<F> = cfg["b"].as_array().unwrap().iter().map(|v| dec_frame_lin(v)).collect();
+    assert_eq!(a.len(), b.len());
+    // inputs of the third and fourth converter (inputs, not expectations; the spec re-checks them)
+    let ab: Vec<F> = a.iter().zip(&b).map(|(x, y)| F::from_fn(|c| x.channel(c).unwrap().plus(*y.channel(c).unwrap()))).collect();
+    let ka: Vec<F> = a.iter().map(|x| F::from_fn(|c| x.channel(c).unwrap().scale2(k))).collect();
+    let mut echo = cfg_echo(cfg, <F::Sample as Enc>::FMT, F::CHANNELS);
+    echo["a"] = enc_frames(&a);
+    echo["b"] = enc_frames(&b);
+    echo["ab"] = enc_frames(&ab);
+    echo["ka"] = enc_frames(&ka);
+    echo["ctor"] = json!(ctor);
+    let pulls: Vec<std::rc::Rc<std::cell::Cell<usize>>> = (0..4).map(|_| std::rc::Rc::new(std::cell::Cell::new(0usize))).collect();
+    let built = catch(|| {
+        let mut cs = Vec::with_capacity(4);
+        for (i, data) in [a, b, ab, ka].into_iter().enumerate() {
+            let src = Src { data, pos: 0, pulls: pulls[i].clone() };
+            let s = fresh::<F>(depth);
+            cs.push(match ctor.as_str() {
+                "scale" => Converter::scale_playback_hz(src, s, num as f64 / den as f64),
+                "sample" => Converter::scale_sample_hz(src, s, den as f64 / num as f64),
+                "hz" => Converter::from_hz_to_hz(src, s, num as f64 * 1000.0, den as f64 * 1000.0),
+                _ => panic!("ctor"),
+            });
+        }
+        cs
+    });
+    let mut cs = match built {
+        None => {
+            out.line(&json!({"ev":"reset","comp":"sinc_clin","cfg":echo,"r":r_panic(),"o":{"ok":false}}));
+            return;
+        }
+        Some(c) => c,
+    };
+    out.line(&json!({"ev":"reset","comp":"sinc_clin","cfg":echo,"r":r_unit(),"o":{"ok":true}}));
+    for op in &ex[1..] {
+        assert_eq!(op["ev"], "next");
+        let (r, h, _) = measured(|| {
+            catch(|| {
+                let mut o = [F::EQUILIBRIUM; 4];
+                for i in 0..4 {
+                    o[i] = cs[i].next();
+                }
+                o
+            })
+        });
+        let r = match r {
+            Some(o) => r_val(json!({"oa": enc_frame(o[0]), "ob": enc_frame(o[1]), "oab": enc_frame(o[2]), "oka": enc_frame(o[3])})),
+            None => r_panic(),
+        };
+        let p: Vec<usize> = pulls.iter().map(|c| c.get()).collect();
+        out.ev("next", json!({"x": 0}), r, json!({"ok": true, "pulls": p}), h);
+    }
+}
+
 pub fn exec(out: &mut Out, ex: &[Value]) {
     let comp = ex[0]["comp"].as_str().unwrap();
     let cfg = &ex[0]["cfg"];
@@ -228,6 +316,14 @@ pub fn exec(out: &mut Out, ex: &[Value]) {
                 ("i16", 2) => $f::<[i16; 2]>(out, ex),
                 ("i32", 1) => $f::<[i32; 1]>(out, ex),
                 ("i32", 2) => $f::<[i32; 2]>(out, ex),
+                ("i8", 1) => $f::<[i8; 1]>(out, ex),
+                ("i8", 2) => $f::<[i8; 2]>(out, ex),
+                ("u8", 1) => $f::<[u8; 1]>(out, ex),
+                ("u8", 2) => $f::<[u8; 2]>(out, ex),
+                ("u16", 1) => $f::<[u16; 1]>(out, ex),
+                ("u16", 2) => $f::<[u16; 2]>(out, ex),
+                ("u32", 1) => $f::<[u32; 1]>(out, ex),
+                ("u32", 2) => $f::<[u32; 2]>(out, ex),
                 _ => panic!("unsupported frame type {} x {}", fmt, ch),
             }
         };
@@ -236,21 +332,42 @@ pub fn exec(out: &mut Out, ex: &[Value]) {
         "sinc" => go!(direct),
         "sinc_conv" => go!(conv),
         "sinc_lin" => go!(lin),
+        "sinc_clin" => go!(clin),
         _ => panic!("unknown sinc component {}", comp),
     }
 }
 
 // ---------------------------------------------------------------------------------------- gen
 
+fn is_int(fmt: &str) -> bool {
+    !(fmt == "f64" || fmt == "f32")
+}
+fn half_of(fmt: &str) -> i128 {
+    match fmt {
+        "u8" => 128,
+        "u16" => 32768,
+        "u32" => 1 << 31,
+        _ => 0,
+    }
+}
+fn bits_of(fmt: &str) -> u32 {
+    match fmt {
+        "i8" | "u8" => 8,
+        "i16" | "u16" => 16,
+        _ => 32,
+    }
+}
+
 /// a random sample spec of magnitude <= `peak_i` (in i16 units); floats get full-precision mantissas,
-/// i32 all 16 low bits (values whose significand does not fit an f32)
+/// the 32-bit formats all 16 low bits (values whose significand does not fit an f32); 8- and 16-bit formats a
+/// small-integer spec (= the amplitude in i16 units, see enc.rs)
 fn rnd_sample(rng: &mut Rng, fmt: &str, peak_i: i64, fine: bool) -> Value {
     let n = rng.range(-peak_i, peak_i);
-    if fmt == "i32" {
+    if fmt == "i32" || fmt == "u32" {
         let v = n * 65536 + rng.below(65536) as i64;
-        return big(v.clamp(i32::MIN as i64, i32::MAX as i64) as i128);
+        return big(v.clamp(i32::MIN as i64, i32::MAX as i64) as i128 + half_of(fmt));
     }
-    if !fine || fmt == "i16" {
+    if !fine || is_int(fmt) {
         return json!(n);
     }
     let u = (rng.next() >> 11) as f64 / (1u64 << 53) as f64;
@@ -264,56 +381,238 @@ fn rnd_sample(rng: &mut Rng, fmt: &str, peak_i: i64, fine: bool) -> Value {
 fn rnd_frame(rng: &mut Rng, fmt: &str, ch: usize, peak_i: i64, fine: bool) -> Value {
     Value::Array((0..ch).map(|_| rnd_sample(rng, fmt, peak_i, fine)).collect())
 }
+/// the format's extreme values (integers: MIN / MAX; floats: -1.0 and the largest value below 1.0)
+fn extreme(fmt: &str, hi: bool) -> Value {
+    match fmt {
+        "f64" => f64f(if hi { 1.0 - f64::EPSILON / 2.0 } else { -1.0 }),
+        "f32" => f32f(if hi { 1.0 - f32::EPSILON / 2.0 } else { -1.0 }),
+        _ => {
+            let h = 1i128 << (bits_of(fmt) - 1);
+            big(if hi { h - 1 } else { -h } + half_of(fmt))
+        }
+    }
+}
+fn frame_of(ch: usize, v: Value) -> Value {
+    Value::Array((0..ch).map(|_| v.clone()).collect())
+}
+
+/// an amplitude v for the linearity drivers: 8/16-bit formats and floats as a small-integer spec (floats: v / 2^15),
+/// the 32-bit formats explicitly
+fn amp_val(fmt: &str, v: i64) -> Value {
+    match fmt {
+        "i32" | "u32" => big(v as i128 + half_of(fmt)),
+        _ => json!(v),
+    }
+}
+
+/// what one input of a linearity run does at one step
+#[derive(Clone, Copy, PartialEq)]
+enum Sym {
+    /// a fresh random non-zero frame
+    Dense,
+    /// exact silence
+    Zero,
+    /// the run's constant frame
+    Konst,
+    /// + / - the top of the amplitude range, alternating
+    Alt,
+    /// minus the other input's frame (the sum falls silent)
+    NegOther,
+    /// the other input's frame (two equal inputs)
+    SameOther,
+}
+
+struct LinGen<'a> {
+    fmt: &'a str,
+    ch: usize,
+    lim: i64,
+    q: i64,
+}
+impl<'a> LinGen<'a> {
+    fn dense(&self, rng: &mut Rng) -> Vec<i64> {
+        (0..self.ch)
+            .map(|_| {
+                let v = rng.range(-self.lim / self.q, self.lim / self.q) * self.q;
+                if v == 0 {
+                    self.q
+                } else {
+                    v
+                }
+            })
+            .collect()
+    }
+    fn frame(&self, v: &[i64]) -> Value {
+        Value::Array(v.iter().map(|x| amp_val(self.fmt, *x)).collect())
+    }
+    /// one execution: the two symbol tracks (same length) -> reset + steps (+ probes)
+    fn exec(&self, rng: &mut Rng, depth: usize, k: i64, ta: &[Sym], tb: &[Sym], probes: u64) -> Vec<Value> {
+        assert_eq!(ta.len(), tb.len());
+        let mut ex = vec![json!({"ev":"reset","comp":"sinc_lin","cfg":{"depth":depth,"fmt":self.fmt,"ch":self.ch,"k":k}})];
+        let top = (self.lim / self.q) * self.q;
+        let konst = [self.dense(rng), self.dense(rng)];
+        for i in 0..ta.len() {
+            let own = |rng: &mut Rng, s: Sym, t: usize| -> Option<Vec<i64>> {
+                match s {
+                    Sym::Dense => Some(self.dense(rng)),
+                    Sym::Zero => Some(vec![0; self.ch]),
+                    Sym::Konst => Some(konst[t].clone()),
+                    Sym::Alt => Some(vec![if i % 2 == 0 { top } else { -top }; self.ch]),
+                    Sym::NegOther | Sym::SameOther => None,
+                }
+            };
+            let a0 = own(rng, ta[i], 0);
+            let b0 = own(rng, tb[i], 1);
+            let rel = |s: Sym, o: &Vec<i64>| -> Vec<i64> { o.iter().map(|x| if s == Sym::NegOther { -x } else { *x }).collect() };
+            let (va, vb) = match (a0, b0) {
+                (Some(a), Some(b)) => (a, b),
+                (Some(a), None) => {
+                    let b = rel(tb[i], &a);
+                    (a, b)
+                }
+                (None, Some(b)) => (rel(ta[i], &b), b),
+                (None, None) => panic!("both tracks relative"),
+            };
+            // mostly the middle of the interval (where the side lobes are largest), otherwise any fractional position
+            let x = if rng.chance(1, 3) { 8 } else { 1 + rng.below(15) };
+            ex.push(json!({"ev":"step","a":{"va":self.frame(&va),"vb":self.frame(&vb),"x":x}}));
+            for _ in 0..probes {
+                if rng.chance(1, 2) {
+                    ex.push(json!({"ev":"probe","a":{"x":rng.below(16)}}));
+                }
+            }
+        }
+        ex
+    }
+}
+
+/// run lengths of exact zeros to try at this depth: every length 1 ..= 2 depth + 1 at small depths, the thresholds
+/// around depth and 2 depth (+ random ones) at large depths
+fn zero_runs(rng: &mut Rng, depth: usize, thorough: bool) -> Vec<usize> {
+    let d = depth;
+    if d <= 6 || (thorough && d <= 12) {
+        return (1..=2 * d + 1).collect();
+    }
+    let mut z = vec![d, if thorough || d % 2 == 0 { d + 1 } else { 2 * d + 1 }];
+    z.push(1 + rng.below(d as u64 - 1) as usize);
+    if thorough {
+        z.extend([d - 1, 2 * d, 2 * d + 1, d + 2 + rng.below(d as u64 - 2) as usize]);
+    }
+    z
+}
+
+/// symbol tracks: `special` carries the structure, the other input is dense throughout
+fn tracks(rng: &mut Rng, depth: usize, kind: &str, runs: &[usize]) -> (Vec<Sym>, Vec<Sym>) {
+    let mut sp = Vec::new();
+    let mut other = Vec::new();
+    let push = |sp: &mut Vec<Sym>, other: &mut Vec<Sym>, s: Sym, n: usize| {
+        for _ in 0..n {
+            sp.push(s);
+            other.push(Sym::Dense);
+        }
+    };
+    match kind {
+        // zero runs (in a, in b, or b = -a): leading zeros first, then each run after 1..3 non-silent frames
+        "zrun_a" | "zrun_b" | "cancel" => {
+            let s = if kind == "cancel" { Sym::NegOther } else { Sym::Zero };
+            if rng.chance(1, 2) {
+                push(&mut sp, &mut other, s, 1 + rng.below(depth as u64 + 2) as usize);
+            }
+            for z in runs {
+                push(&mut sp, &mut other, Sym::Dense, 1 + rng.below(3) as usize);
+                push(&mut sp, &mut other, s, *z);
+            }
+            push(&mut sp, &mut other, Sym::Dense, 2);
+        }
+        // repeated equal frames, alternating extremes, two equal inputs, an input that is silent throughout
+        _ => {
+            let s = match kind {
+                "const" => Sym::Konst,
+                "alt" => Sym::Alt,
+                "same" => Sym::SameOther,
+                "allzero" => Sym::Zero,
+                _ => panic!("kind"),
+            };
+            push(&mut sp, &mut other, Sym::Dense, 2);
+            push(&mut sp, &mut other, s, 2 * depth + 1 + rng.below(3) as usize);
+            push(&mut sp, &mut other, Sym::Dense, 2);
+            push(&mut sp, &mut other, s, 1 + rng.below(depth as u64) as usize);
+            push(&mut sp, &mut other, Sym::Dense, 1);
+        }
+    }
+    (sp, other)
+}
 
 pub fn gen(rng: &mut Rng, tier: &str, execs: &mut Vec<Vec<Value>>) {
     let thorough = tier == "thorough";
     let combos: [(&str, usize); 8] =
         [("f64", 1), ("f32", 1), ("i16", 1), ("i32", 1), ("f64", 2), ("f32", 2), ("i16", 2), ("i32", 2)];
-    for depth in 1..=32usize {
-        // quick: two frame types per depth (rotating, every type at small and large depths); thorough: all eight
+    // round 4b: the narrow and the unsigned formats
+    let combos2: [(&str, usize); 8] =
+        [("u16", 1), ("i8", 1), ("u8", 2), ("u32", 1), ("u16", 2), ("i8", 2), ("u8", 1), ("u32", 2)];
+    // round 4b: the property quantifies over every depth -- beyond 32 a sample of large depths
+    let mut depths: Vec<usize> = (1..=32).collect();
+    depths.extend(if thorough { vec![33, 34, 35, 36, 37, 38, 39, 40, 41, 48, 50, 64, 72, 96, 100, 128] } else { vec![35, 36, 37, 41, 50, 64, 100] });
+    for (di, &depth) in depths.iter().enumerate() {
+        let large = depth > 32;
+        // quick: three frame types per depth (rotating, every type at small and large depths); thorough: all sixteen
         let sel: Vec<(&str, usize)> = if thorough {
-            combos.to_vec()
+            combos.iter().chain(combos2.iter()).cloned().collect()
         } else {
-            vec![combos[depth % 4], combos[4 + (depth / 2) % 4]]
+            vec![combos[depth % 4], combos[4 + (depth / 2) % 4], combos2[depth % 8]]
         };
-        for (fmt, ch) in sel {
-            let int = fmt == "i16" || fmt == "i32";
+        for (si, &(fmt, ch)) in sel.iter().enumerate() {
+            let int = is_int(fmt);
             // integer frames stay below 1/8 full scale where fractional positions are interpolated (tap sums)
             let peak = if int { 4000 } else { 30000 };
-            // (1) direct: priming with interpolation at every step, constant passage, clear, again
-            let mut ex = vec![json!({"ev":"reset","comp":"sinc","cfg":{"depth":depth,"fmt":fmt,"ch":ch}})];
             let push = |v: Value| json!({"ev":"push","a":{"v":v}});
             let interp = |j: u64| json!({"ev":"interp","a":{"x":j}});
-            ex.push(interp(0));
-            for _ in 0..(depth + 2 + rng.below(depth as u64 + 2) as usize) {
-                ex.push(push(rnd_frame(rng, fmt, ch, peak, true)));
+            // (1) direct: priming with interpolation at every step, constant passage, clear, again
+            // (large depths, quick tier: one frame type per depth)
+            if !large || (thorough && si % 4 == di % 4) || (!thorough && si == (di % 3)) {
+                let mut ex = vec![json!({"ev":"reset","comp":"sinc","cfg":{"depth":depth,"fmt":fmt,"ch":ch}})];
                 ex.push(interp(0));
-                if rng.chance(1, 2) {
-                    ex.push(interp(rng.below(16)));
+                for _ in 0..(depth + 2 + rng.below(depth as u64 + 2) as usize) {
+                    ex.push(push(rnd_frame(rng, fmt, ch, peak, true)));
+                    ex.push(interp(0));
+                    if rng.chance(1, 2) {
+                        ex.push(interp(rng.below(16)));
+                    }
                 }
-            }
-            // a constant passage long enough to prime the whole buffer, every fractional position
-            let c = rnd_frame(rng, fmt, ch, peak, true);
-            for _ in 0..(2 * depth) {
-                ex.push(push(c.clone()));
-            }
-            for j in 0..16 {
-                ex.push(interp(j));
-            }
-            ex.push(json!({"ev":"clear","a":{}}));
-            ex.push(interp(0));
-            ex.push(interp(rng.below(16)));
-            for _ in 0..(depth + 3) {
-                ex.push(push(rnd_frame(rng, fmt, ch, peak, true)));
+                // a constant passage long enough to prime the whole buffer, every fractional position
+                let c = rnd_frame(rng, fmt, ch, peak, true);
+                for _ in 0..(2 * depth) {
+                    ex.push(push(c.clone()));
+                }
+                for j in 0..16 {
+                    ex.push(interp(j));
+                }
+                ex.push(json!({"ev":"clear","a":{}}));
                 ex.push(interp(0));
                 ex.push(interp(rng.below(16)));
+                for _ in 0..(depth + 3) {
+                    ex.push(push(rnd_frame(rng, fmt, ch, peak, true)));
+                    ex.push(interp(0));
+                    ex.push(interp(rng.below(16)));
+                }
+                execs.push(ex);
             }
-            execs.push(ex);
             // (2) through the Converter at ratio 1
-            // (on the grid only the centre tap has a non-zero weight: i32 sources run up to full scale)
+            // (on the grid only the centre tap has a non-zero weight: integer sources run up to full scale, and
+            // contain both extremes of the format, a run of exact zeros and a run of equal frames)
             let n_src = 2 * depth + 6;
-            let cpeak = if fmt == "i32" { 32767 } else { peak };
-            let src: Vec<Value> = (0..n_src).map(|_| rnd_frame(rng, fmt, ch, cpeak, true)).collect();
+            let cpeak = if int { 32767 } else { peak };
+            let mut src: Vec<Value> = (0..n_src).map(|_| rnd_frame(rng, fmt, ch, cpeak, true)).collect();
+            let zl = 1 + rng.below(depth as u64 + 1) as usize;
+            let z0 = rng.below((n_src - zl) as u64) as usize;
+            for s in src.iter_mut().skip(z0).take(zl) {
+                *s = frame_of(ch, json!(0));
+            }
+            let c0 = rng.below(n_src as u64 - 2) as usize;
+            src[c0 + 1] = src[c0].clone();
+            src[c0 + 2] = src[c0].clone();
+            let e0 = rng.below(n_src as u64 - 1) as usize;
+            src[e0] = frame_of(ch, extreme(fmt, true));
+            src[e0 + 1] = frame_of(ch, extreme(fmt, false));
             let ctor = *rng.pick(&["scale", "sample", "hz"]);
             let mut ex = vec![json!({"ev":"reset","comp":"sinc_conv","cfg":{"depth":depth,"fmt":fmt,"ch":ch,"ctor":ctor,"src":src}})];
             let total = n_src + depth + 3;
@@ -327,28 +626,59 @@ pub fn gen(rng: &mut Rng, tier: &str, execs: &mut Vec<Vec<Value>>) {
             }
             execs.push(ex);
             // (3) linearity: a, b, a+b, 2^k a.  Values are chosen so that a+b and 2^k a are exact:
-            // integer samples multiples of 2^|k| when k < 0; floats = 20-bit dyadics in a common binade
-            let k = if int { rng.range(-2, 2) } else { rng.range(-8, 8) };
-            let mut ex = vec![json!({"ev":"reset","comp":"sinc_lin","cfg":{"depth":depth,"fmt":fmt,"ch":ch,"k":k}})];
-            // (i32: explicit values up to 2^26, again more significant bits than an f32 holds)
-            let lim: i64 = if fmt == "i16" { 1000 } else if fmt == "i32" { 1 << 26 } else { 12000 };
-            let q: i64 = if int && k < 0 { 1 << (-k) } else { 1 };
-            let one = |rng: &mut Rng| {
-                Value::Array(
-                    (0..ch)
-                        .map(|_| {
-                            let v = rng.range(-lim / q, lim / q) * q;
-                            if fmt == "i32" { big(v as i128) } else { json!(v) }
-                        })
-                        .collect(),
-                )
-            };
-            for _ in 0..(2 * depth + 4) {
-                let va = one(rng);
-                let vb = one(rng);
-                ex.push(json!({"ev":"step","a":{"va":va,"vb":vb,"x":rng.below(16)}}));
+            // integer samples multiples of 2^|k| when k < 0; floats = 15-bit dyadics
+            // (8-bit formats: the tap truncation, 2 depth LSB, is as large as any amplitude that cannot overflow)
+            if bits_of(fmt) == 8 && int {
+                continue;
             }
-            execs.push(ex);
+            let k = if int { rng.range(-2, 2) } else { rng.range(-8, 8) };
+            // (32-bit formats: explicit values up to 2^26, again more significant bits than an f32 holds)
+            let lim: i64 = if bits_of(fmt) == 16 && int { 1000 } else if int { 1 << 26 } else { 12000 };
+            let q: i64 = if int && k < 0 { 1 << (-k) } else { 1 };
+            let lg = LinGen { fmt, ch, lim, q };
+            if !large || thorough {
+                let n = 2 * depth + 4;
+                let t = vec![Sym::Dense; n];
+                let mut ex = lg.exec(rng, depth, k, &t, &t, 0);
+                // (as before round 4b: any position including the grid)
+                for e in ex.iter_mut().skip(1) {
+                    e["a"]["x"] = json!(rng.below(16));
+                }
+                execs.push(ex);
+            }
+            // round 4b: inputs with structure a value-dependent shortcut could key on.  One input is special, the
+            // other dense, in both roles; quick tier: zero runs in a for one frame type per depth + one more kind
+            let kinds = ["zrun_a", "zrun_b", "cancel", "const", "alt", "same", "allzero"];
+            let chosen: Vec<&str> = if thorough {
+                if si % 4 == di % 4 { kinds.to_vec() } else { vec![] }
+            } else if si == (di % 2) {
+                vec!["zrun_a", kinds[1 + di % 6]]
+            } else {
+                vec![]
+            };
+            for kind in chosen {
+                let runs = zero_runs(rng, depth, thorough && kind == "zrun_a");
+                let (sp, other) = tracks(rng, depth, kind, &runs);
+                let ex = if kind == "zrun_b" { lg.exec(rng, depth, k, &other, &sp, 1) } else { lg.exec(rng, depth, k, &sp, &other, 1) };
+                execs.push(ex);
+            }
+            // round 4b: the same relations through four real Converters at a ratio other than 1
+            if (thorough && si % 4 == (di + 1) % 4) || (!thorough && si == ((di + 1) % 2) && (depth % 2 == 0 || depth == 37) && depth <= 50) {
+                let ratios: [(u64, u64); 8] = [(1, 2), (3, 10), (3, 2), (7, 16), (2, 1), (5, 4), (441, 480), (160, 147)];
+                let (num, den) = if depth > 16 { ratios[2 + rng.below(6) as usize] } else { *rng.pick(&ratios) };
+                let z = depth + rng.below(depth as u64 + 1) as usize;
+                let burst = 1 + rng.below(3) as usize;
+                let len = burst + z + 3 + rng.below(depth as u64 + 1) as usize;
+                let a: Vec<Value> = (0..len).map(|i| if i >= burst && i < burst + z { lg.frame(&vec![0; ch]) } else { lg.frame(&lg.dense(rng)) }).collect();
+                let b: Vec<Value> = (0..len).map(|_| lg.frame(&lg.dense(rng))).collect();
+                let ctor = *rng.pick(&["scale", "sample", "hz"]);
+                let nout = ((((len + 2 * depth + 2) as u64) * den) / num + 1).min(300);
+                let mut ex = vec![json!({"ev":"reset","comp":"sinc_clin","cfg":{"depth":depth,"fmt":fmt,"ch":ch,"k":k,"num":num,"den":den,"ctor":ctor,"a":a,"b":b}})];
+                for _ in 0..nout {
+                    ex.push(json!({"ev":"next","a":{}}));
+                }
+                execs.push(ex);
+            }
         }
     }
 }
